@@ -146,6 +146,75 @@ def api_single(item):
     return part
 
 
+def api_debt(item):
+    """two levels on one stream (a shared throttle and the stream's own), the shared one already in debt through
+    another stream when this stream does its first I/O: from then on the tightest of the two governs - the wait for
+    the shared level earns the fresh own level no credit"""
+    c1, length = item
+    import aioftp as a
+    part = report.Partial()
+    w = World()
+    try:
+        LS, LP = 8, 4
+        alpha = list(itertools.product([1, 4, 12], [0.0, 0.25], [0.0, 0.5]))
+        for direction in ("read", "write"):
+            for n in range(1, length + 1):
+                for seq in itertools.product(alpha, repeat=n):
+                    shared = a.StreamThrottle.from_limits(LS, LS)
+                    own = a.StreamThrottle.from_limits(LP, LP)
+                    log1, log2 = [], []
+                    r1, w1 = FakeReader(log1), FakeWriter(log1)
+                    r2, w2 = FakeReader(log2), FakeWriter(log2)
+                    first = a.ThrottleStreamIO(r1, w1, throttles={"shared": shared})
+                    second = a.ThrottleStreamIO(r2, w2, throttles={"shared": shared, "own": own})
+
+                    async def main():
+                        if direction == "read":
+                            r1.chunk = b"x" * c1
+                            await first.read(c1)
+                        else:
+                            await first.write(b"x" * c1)
+                        for chunk, dur, gap in seq:
+                            if gap:
+                                await asyncio.sleep(gap)
+                            if direction == "read":
+                                r2.chunk, r2.duration = b"x" * chunk, dur
+                                await second.read(chunk)
+                            else:
+                                w2.duration = dur
+                                await second.write(b"x" * chunk)
+
+                    w.loop._vtime = 0.0
+                    w.loop.iterations = 0
+                    w.run(main())
+                    got = [t for _, t, _ in log2]
+                    # reference: the shared level starts with c1 bytes booked at t=0, the own level is fresh
+                    t, want = 0.0, []
+                    s_b, p_t0, p_b = c1, None, 0
+                    for chunk, dur, gap in seq:
+                        t += gap
+                        st = max(t, s_b / LS, (p_t0 + p_b / LP) if p_t0 is not None else 0.0)
+                        want.append(st)
+                        if p_t0 is None:
+                            p_t0 = st
+                        s_b += chunk
+                        p_b += chunk
+                        t = st + dur
+                    part.evaluations += 1
+                    if len(got) != len(want) or any(abs(g - x) > 1e-6 for g, x in zip(got, want)):
+                        part.violation({"kind": "throttle-start-times", "config": "shared-in-debt + fresh own level", "direction": direction},
+                                       {"first_stream_bytes": c1, "limits": [LS, LP], "seq": seq, "got": got, "want": want},
+                                       replay={"api": ["debt", c1, length]})
+                        return part
+                part.states.add(report.fp(["debt", c1, direction, n]))
+        part.nontrivial.add(report.fp(["debt", c1]))
+        part.sample({"debt": c1, "length": length, "alphabet": len(alpha)}, limit=1)
+    finally:
+        w.close()
+    part.transitions = part.evaluations
+    return part
+
+
 def api_independent(item):
     """streams built without a table of throttles: a limit put on one of them (in place, as the server does with
     ``throttles.update``) is that stream's alone - every other stream stays without any delay"""
@@ -833,7 +902,8 @@ def run(tier, seed, t0):
     eitems, ncases = e2e_items(tier)
     seq_items = [(d, n, size, 20000) for d in ("upload", "download") for n in (2, 5, 15) for size in (1000, 4000, 8192, 10000)]
     ind_items = [(how, length) for how in ("setitem", "update", "setdefault")]
-    parts = report.pmap(api_single, api_items) + report.pmap(api_configs, cfg_items) + report.pmap(api_independent, ind_items) \
+    debt_items = [(c1, length) for c1 in (8, 24, 80)]
+    parts = report.pmap(api_single, api_items) + report.pmap(api_configs, cfg_items) + report.pmap(api_independent, ind_items) + report.pmap(api_debt, debt_items) \
         + report.pmap(e2e_work, eitems) \
         + report.pmap(client_sequence, seq_items)
     part = report.merge_all(parts)
@@ -866,6 +936,10 @@ def replay(path):
     if "e2e" in rp:
         enable_write_logs()
         part = e2e_case(rp["e2e"])
+        print(json.dumps([v["detail"] for v in part.violations], indent=1, default=repr))
+        return 1 if part.violations else 0
+    if rp.get("api", [None])[0] == "debt":
+        part = api_debt((rp["api"][1], rp["api"][2]))
         print(json.dumps([v["detail"] for v in part.violations], indent=1, default=repr))
         return 1 if part.violations else 0
     if rp.get("api", [None])[0] == "independent":
